@@ -404,6 +404,8 @@ def alg_step(case, reg, toks, t, fails):
         yielded = []
         pi = 0
         ended = False
+        consumed = False
+        fork = None
         for ch in script:
             if pi >= len(parts):
                 break
@@ -431,10 +433,10 @@ def alg_step(case, reg, toks, t, fails):
                     remaining = len(want) - len(yielded)
                     if not ended and (lo > remaining or (hi is not None and hi < remaining)):
                         fails.append("%s %s: size_hint %s does not bracket the %d items still to come" % (reg, kind, p, remaining))
-            elif ch in ("c", "f"):
+            elif ch in ("x", "f"):
                 pi += 1
                 remaining = len(want) - len(yielded)
-                if ch == "c" and p.isdigit() and int(p) != remaining:
+                if ch == "x" and (not p.isdigit() or int(p) != remaining):
                     fails.append("%s %s: count()=%s but %d items remain" % (reg, kind, p, remaining))
                 if ch == "f":
                     items = [x for x in split_top(p[1:-1]) if x]
@@ -446,18 +448,25 @@ def alg_step(case, reg, toks, t, fails):
                     if sorted(cl + yielded) != sorted(want):
                         fails.append("%s %s: fold visits %s after next yielded %s; the result is %s" % (reg, kind, cl, yielded, sorted(want)))
                     yielded += cl
+                consumed = True
                 break
             elif ch in ("d", "D"):
                 pi += 1
-            elif ch == "x":
-                pass
+            elif ch == "c":
+                if fork is None:
+                    fork = list(yielded)
             elif ch == "l":
                 pass
+        if fork is not None and parts and parts[-1].startswith("[") and pi < len(parts):
+            cl = [int(m.group(3)) for m in (re.match(r"@(\d+)\.(\d+)=K(\d+)\.(\d+)", x)
+                                            for x in split_top(parts[-1][1:-1]) if x) if m]
+            if sorted(cl + fork) != sorted(want):
+                fails.append("%s %s: the clone taken after %s yields %s; the result is %s" % (reg, kind, fork, cl, sorted(want)))
         if len(set(yielded)) != len(yielded):
             fails.append("%s %s: an element is yielded twice: %s" % (reg, kind, yielded))
         if not set(yielded) <= want:
             fails.append("%s %s: yields %s, the mathematical result is %s" % (reg, kind, yielded, sorted(want)))
-        if ended and set(yielded) != want and "c" not in script and "f" not in script:
+        if ended and set(yielded) != want:
             fails.append("%s %s: ended after %s, the mathematical result is %s" % (reg, kind, yielded, sorted(want)))
         # operands unchanged
         for r2, pre in ((reg, a), (other, b)):
@@ -551,6 +560,8 @@ def iter_step(case, reg, toks, t, fails):
     pos = 0
     pi = 0
     mut = kind in ("iter_mut", "values_mut")
+    fork = None
+    ended = False
     for ch in script:
         if pi >= len(parts):
             break
@@ -580,15 +591,31 @@ def iter_step(case, reg, toks, t, fails):
             pi += 1
             if p != "%d..%d" % (rem, rem):
                 fails.append("%s %s: size_hint %s with %d items to come" % (reg, kind, p, rem))
-        elif ch in ("c", "f"):
+        elif ch in ("x", "f"):
             pi += 1
-            if p.isdigit() and int(p) != rem:
-                fails.append("%s %s: count()=%s with %d items to come" % (reg, kind, p, rem))
+            if not p.isdigit() or int(p) != rem:
+                fails.append("%s %s: %s=%s with %d items to come" % (reg, kind, "count()" if ch == "x" else "fold", p, rem))
+            ended = True
             break
         elif ch in ("d", "D"):
             pi += 1
-        elif ch == "x":
-            pass
+        elif ch == "c":
+            if not mut and fork is None:
+                fork = min(pos, len(pre))
+    if fork is not None and parts and parts[-1].startswith("["):
+        def show(i):
+            e = pre[i]
+            if kind == "iter":
+                return "@%d=K%d.%d:V%d.%d" % (i, e[0], e[1], e[2], e[3])
+            if kind == "keys":
+                return "@%d=K%d.%d" % (i, e[0], e[1])
+            return "@%d=V%d.%d" % (i, e[2], e[3])
+        want = "[" + ",".join(show(i) for i in range(fork, len(pre))) + "]"
+        if not isset and any(e[3] is None for e in pre):
+            want = None
+        if want is not None and parts[-1] != want:
+            fails.append("%s %s: the clone taken at position %d yields %s, the entries from there are %s"
+                         % (reg, kind, fork, parts[-1], want))
     g = t["snaps"].get(reg)
     if g is not None:
         n = min(pos, len(pre))
